@@ -164,11 +164,276 @@ func GenUdpQueries(g *Gen, n int) []Query {
 	return qs
 }
 
+// cacheQuestion is one question of a cache history together with the inputs that all its
+// queries share: the response cache is keyed by (location, type, class, lower-cased name), a
+// cached answer keeps the owner-name case of the first asker, and the answer count is a
+// handler constant - so name bytes, client, client-subnet option and max are fixed per question.
+type cacheQuestion struct {
+	Name   Name
+	Type   int
+	Class  int
+	Client string
+	Max    int
+	Ecs    *dns.EDNS0_SUBNET // nil: the question is never asked with a client-subnet option
+	Cls    string
+}
+
+// unknownOpts draws 1-3 options the server does not know (it must ignore them).
+func unknownOpts(r *hlib.Rng) []dns.EDNS0 {
+	var os []dns.EDNS0
+	n := 1 + r.Intn(3)
+	for i := 0; i < n; i++ {
+		switch r.Intn(5) {
+		case 0:
+			os = append(os, &dns.EDNS0_NSID{Code: dns.EDNS0NSID, Nsid: ""})
+		case 1:
+			os = append(os, &dns.EDNS0_COOKIE{Code: dns.EDNS0COOKIE, Cookie: "0102030405060708"})
+		case 2:
+			os = append(os, &dns.EDNS0_PADDING{Padding: r.Bytes(r.Intn(40), nil)})
+		case 3:
+			os = append(os, &dns.EDNS0_LOCAL{Code: uint16(65001 + r.Intn(500)), Data: r.Bytes(r.Intn(20), nil)})
+		default:
+			os = append(os, &dns.EDNS0_LOCAL{Code: uint16(20 + r.Intn(1000)), Data: r.Bytes(r.Intn(8), nil)})
+		}
+	}
+	return os
+}
+
+// query packs one query of the question.  shape: 0 no OPT, 1 bare OPT, 2 OPT with the
+// question's client-subnet option, 3 OPT with unknown options, 4 both (in either order);
+// shapes 2 and 4 fall back to 1 and 3 when the question has no client-subnet option.
+// version is the EDNS version (ignored by shape 0); opcode 0 is QUERY.
+func (cq *cacheQuestion) query(r *hlib.Rng, shape, version, opcode int, tag string) (Query, bool) {
+	q := QSpec{Name: cq.Name, Type: cq.Type, Class: cq.Class, ID: r.Intn(65536), Flags: r.Intn(32), Opcode: opcode}
+	if cq.Ecs == nil && (shape == 2 || shape == 4) {
+		shape--
+	}
+	if shape > 0 {
+		q.Edns = true
+		q.Version = version
+		q.Size = []int{0, 512, 1232, 4096, 65535}[r.Intn(5)]
+		q.DO = r.Chance(1, 2)
+		switch shape {
+		case 2:
+			q.Opts = []dns.EDNS0{cq.Ecs}
+		case 3:
+			q.Opts = unknownOpts(r)
+		case 4:
+			q.Opts = unknownOpts(r)
+			at := r.Intn(len(q.Opts) + 1)
+			q.Opts = append(q.Opts[:at:at], append([]dns.EDNS0{cq.Ecs}, q.Opts[at:]...)...)
+		}
+	}
+	wire, err := PackQuery(q)
+	if err != nil {
+		return Query{}, false
+	}
+	return Query{Wire: wire, Client: cq.Client, Max: cq.Max, Class_: cq.Cls + "/" + tag}, true
+}
+
+// genCacheQuestions draws k questions over the generated file: declared names, descendants
+// (NXDOMAIN and wildcard answers are cached too), zone apexes, names below delegations, the
+// root, and a few of another class (the class is part of the cache key).
+func genCacheQuestions(g *Gen, k int) []*cacheQuestion {
+	r := g.R
+	var res []*cacheQuestion
+	seen := map[string]bool{}
+	for tries := 0; len(res) < k && tries < 20*k; tries++ {
+		cq := &cacheQuestion{Class: 1, Client: Clients[r.Intn(len(Clients))], Max: []int{1, 1, 2, 3, 8}[r.Intn(5)]}
+		cq.Type = []int{1, 28, 2, 6, 16, 15, 255, 5, 43, 1, 16, 2}[r.Intn(12)]
+		base := Name{}
+		if len(g.Names) > 0 {
+			base = append(Name{}, g.Names[r.Intn(len(g.Names))]...)
+		}
+		switch r.Pick([]int{6, 3, 3, 2, 1, 1}) {
+		case 0:
+			cq.Name, cq.Cls = base, "declared"
+		case 1:
+			cq.Name, cq.Cls = base.Child(g.label()), "child"
+		case 2:
+			cq.Name, cq.Cls = base, "declared"
+			if len(g.Zones) > 0 {
+				cq.Name, cq.Cls = append(Name{}, g.Zones[r.Intn(len(g.Zones))]...), "apex"
+				cq.Type = []int{2, 6, 255, 1, 43}[r.Intn(5)]
+			}
+		case 3:
+			cq.Name, cq.Cls = base, "declared"
+			for _, l := range g.Lines {
+				if l.Kind == "&" && len(l.Recs) > 0 && r.Chance(1, 2) {
+					cq.Name, cq.Cls = unpackName(hlib.Unints(l.Recs[0].Owner)).Child(g.label()), "belowns"
+				}
+			}
+		case 4:
+			cq.Name, cq.Cls = Name{}, "root"
+		default:
+			cq.Name, cq.Cls = N(g.label(), "nowhere", "invalid"), "outside"
+		}
+		if len(cq.Name.Pack()) > 255 {
+			continue
+		}
+		if r.Chance(1, 5) { // mixed case, the same bytes in every query of the question
+			nn := Name{}
+			for _, l := range cq.Name {
+				b := append([]byte{}, l...)
+				for j := range b {
+					if b[j] >= 'a' && b[j] <= 'z' && r.Chance(1, 2) {
+						b[j] -= 32
+					}
+				}
+				nn = append(nn, b)
+			}
+			cq.Name = nn
+			cq.Cls += "+case"
+		}
+		if r.Chance(1, 8) {
+			cq.Class = []int{0, 3, 4, 254, 255}[r.Intn(5)]
+			cq.Cls += "+class"
+		}
+		if r.Chance(2, 3) {
+			e := Ecs([]string{"10.0.0.0", "10.1.2.0", "172.16.5.0", "192.0.2.0", "fd00::", "2001:db8::"}[r.Intn(6)], 0, 0)
+			if e.Family == 1 {
+				e.SourceNetmask = uint8([]int{24, 16, 32}[r.Intn(3)])
+			} else {
+				e.SourceNetmask = uint8([]int{56, 48, 64}[r.Intn(3)])
+			}
+			cq.Ecs = e
+		}
+		key := fmt.Sprintf("%x|%d|%d", cq.Name.Lower().Pack(), cq.Type, cq.Class)
+		if seen[key] {
+			continue
+		}
+		seen[key] = true
+		res = append(res, cq)
+	}
+	return res
+}
+
+var otherOpcodes = []int{1, 2, 4, 5, 3, 6, 15}
+
+// GenCacheHistories draws the two histories of one data file for handlers with the response
+// cache enabled.  Each history is (warm-up, judged queries); all judged queries of the first
+// carry EDNS version 0 or no OPT, all judged queries of the second another EDNS version.
+//
+//	v0:  warm-up = nothing | each question once with a bad EDNS version (the reverse order) |
+//	     version 0 then a bad version; judged = per question 4-6 queries in a row: cold, then
+//	     on the warm cache with other shapes (OPT or not, client subnet, unknown options),
+//	     other ids / flags, and other opcodes
+//	bad: warm-up = per question (sometimes a bad-version query first, then) version-0 queries
+//	     without OPT / with OPT / with the client-subnet option / with unknown options;
+//	     judged = per question the versions 1, 2, 255 and a random one, bare, with the
+//	     client-subnet option, with unknown options, with both, some with another opcode;
+//	     plus bad-version queries for questions that were never asked (cold)
+func GenCacheHistories(g *Gen, k int) (warmV0, v0, warmBad, bad []Query) {
+	r := g.R
+	qs := genCacheQuestions(g, k)
+	add := func(l *[]Query, q Query, ok bool) {
+		if ok {
+			*l = append(*l, q)
+		}
+	}
+	badVersion := func() int { return []int{1, 2, 255, 1 + r.Intn(255)}[r.Intn(4)] }
+	opcode := func(num, den int) int {
+		if r.Chance(num, den) {
+			return otherOpcodes[r.Intn(len(otherOpcodes))]
+		}
+		return 0
+	}
+	// history 1: judged queries of version 0
+	mode := r.Intn(3)
+	for _, cq := range qs {
+		switch mode {
+		case 1:
+			q, ok := cq.query(r, 1+r.Intn(4), badVersion(), 0, "badvers-first")
+			add(&warmV0, q, ok)
+		case 2:
+			q, ok := cq.query(r, r.Intn(3), 0, 0, "v0")
+			add(&warmV0, q, ok)
+			q, ok = cq.query(r, 1+r.Intn(4), badVersion(), 0, "badvers-between")
+			add(&warmV0, q, ok)
+		}
+	}
+	for _, cq := range qs {
+		n := 4 + r.Intn(3)
+		for i := 0; i < n; i++ {
+			shape := r.Intn(5)
+			tag := "warm"
+			switch i {
+			case 0:
+				shape, tag = r.Intn(2), "first"
+			case 1:
+				shape, tag = 2, "first-ecs"
+			}
+			if shape >= 3 {
+				tag = "warm-unknown-opts"
+			}
+			op := 0
+			if i >= 2 {
+				if op = opcode(1, 3); op != 0 {
+					tag += "+opcode"
+				}
+			}
+			q, ok := cq.query(r, shape, 0, op, tag)
+			add(&v0, q, ok)
+		}
+	}
+	// history 2: judged queries of another version, on the warm cache
+	nwarm := len(qs) - 2 // the last two questions stay cold
+	if nwarm < 1 {
+		nwarm = len(qs)
+	}
+	for i, cq := range qs {
+		if i >= nwarm {
+			break
+		}
+		if r.Chance(1, 3) {
+			q, ok := cq.query(r, 1+r.Intn(4), badVersion(), 0, "badvers-first")
+			add(&warmBad, q, ok)
+		}
+		q, ok := cq.query(r, r.Intn(2), 0, 0, "v0")
+		add(&warmBad, q, ok)
+		if cq.Ecs != nil {
+			q, ok = cq.query(r, 2, 0, 0, "v0-ecs")
+			add(&warmBad, q, ok)
+		}
+		if r.Chance(1, 2) {
+			q, ok = cq.query(r, 3+r.Intn(2), 0, opcode(1, 4), "v0-unknown-opts")
+			add(&warmBad, q, ok)
+		}
+	}
+	for i, cq := range qs {
+		tag := "warm"
+		if i >= nwarm {
+			tag = "cold"
+		}
+		vs := []int{1, 2, 255, 1 + r.Intn(255)}
+		r.Shuffle(len(vs), func(a, b int) { vs[a], vs[b] = vs[b], vs[a] })
+		shapes := []int{1, 2, 3, 4}
+		r.Shuffle(len(shapes), func(a, b int) { shapes[a], shapes[b] = shapes[b], shapes[a] })
+		n := 4
+		if i >= nwarm {
+			n = 1
+		}
+		for j := 0; j < n; j++ {
+			op := opcode(1, 4)
+			t := fmt.Sprintf("%s-v%d-shape%d", tag, vs[j], shapes[j])
+			if op != 0 {
+				t += "+opcode"
+			}
+			q, ok := cq.query(r, shapes[j], vs[j], op, t)
+			add(&bad, q, ok)
+		}
+	}
+	return
+}
+
 // RunWire is the body of the C13 harness command: per database two cases, one with the
-// queries of EDNS version 0 / without OPT, one with the queries of another EDNS version.
+// queries of EDNS version 0 / without OPT, one with the queries of another EDNS version
+// (handlers without cache, every query on its own); one UDP case; and per cache database two
+// history cases on handlers with the response cache enabled (GenCacheHistories).
 func RunWire(a *hlib.Args, e *hlib.Emitter, stream uint64) error {
 	Setup(a)
 	var cs []*FileCase
+	var shared [][]*FileCase // the history cases, two per data file, built once per file
 	if a.Replay != "" {
 		var err error
 		if cs, err = ReadCases(a.Replay); err != nil {
@@ -201,12 +466,47 @@ func RunWire(a *hlib.Args, e *hlib.Emitter, stream uint64) error {
 			g := Generate(r, "udp", 1700000000+int64(r.Intn(1000000)))
 			cs = append(cs, &FileCase{Class: "udp", Mtime: g.Mtime, Lines: g.Lines, Queries: GenUdpQueries(g, 36)})
 		}
+		// histories: handlers with the response cache enabled, queries asked one after the other
+		// (per database one case judging EDNS version 0 / no OPT, one judging other versions)
+		cacheClasses := []string{"located", "basic", "root", "nested", "rootdeleg", "hibyte", "odd"}
+		nc := 3
+		if a.N < 6 {
+			nc = (a.N + 1) / 2
+		}
+		if a.Tier == "thorough" {
+			nc = 3 + a.N/6
+		}
+		for i := 0; i < nc; i++ {
+			r := hlib.NewRng(a.Seed, stream+9000+uint64(i))
+			class := cacheClasses[i%len(cacheClasses)]
+			g := Generate(r, class, 1700000000+int64(r.Intn(1000000)))
+			lines := g.Lines
+			if lines == nil {
+				lines = []Line{}
+			}
+			warmV0, v0, warmBad, bad := GenCacheHistories(g, 6)
+			lru := 1024
+			if i%4 == 3 {
+				lru = 2 // evictions: queries of one question come in a row, so they still hit
+			}
+			shared = append(shared, []*FileCase{
+				{Class: class + "+cache", Mtime: g.Mtime, Lines: lines, Cache: lru, Warmup: warmV0, Queries: v0},
+				{Class: class + "+cache+badvers", Mtime: g.Mtime, Lines: lines, Cache: 1024, Warmup: warmBad, Queries: bad}})
+		}
 	}
-	if err := BuildAll(cs, a.Scratch, 12); err != nil {
+	// one directory per case, as before, then one per pair of history cases
+	var groups [][]*FileCase
+	for _, c := range cs {
+		groups = append(groups, []*FileCase{c})
+	}
+	groups = append(groups, shared...)
+	if err := BuildGroups(groups, a.Scratch, 12); err != nil {
 		return err
 	}
-	for _, c := range cs {
-		e.Emit(c)
+	for _, g := range groups {
+		for _, c := range g {
+			e.Emit(c)
+		}
 	}
 	return nil
 }
